@@ -183,7 +183,8 @@ pub fn run_threaded(case: &Case, prog: &Prog, plan: &Plan, exp: &Expect, gates: 
         }
         for (i, (b, id)) in seq.iter().enumerate() {
             let last = i + 1 == seq.len();
-            if last && mode == "C03T" && seq.len() > 1 {
+            // (C08 too: "the caller continues only after every thread of the step has finished")
+            if last && (mode == "C03T" || mode == "C08") && seq.len() > 1 {
                 // the other branches have been let go; give them a moment to (wrongly) run ahead
                 for (pb, _) in seq.iter().take(i) {
                     if let Some(Some(bs)) = exp.steps.get(s).map(|se| se.branches[*pb].as_ref()) {
@@ -196,9 +197,9 @@ pub fn run_threaded(case: &Case, prog: &Prog, plan: &Plan, exp: &Expect, gates: 
                 std::thread::sleep(Duration::from_millis(1));
                 let later = later_events(s);
                 if !later.is_empty() {
-                    violations.push(viol("barrier", format!("step {}: branch {} is still blocked in step {} but later-step events exist: {:?}", s, b, s, later)));
+                    violations.push(viol(if mode == "C08" { "threads" } else { "barrier" }, format!("step {}: branch {} is still blocked in step {} but later-step events exist (the caller went on before every thread of the step had finished): {:?}", s, b, s, later)));
                 }
-                if is_done() {
+                if is_done() && mode == "C03T" {
                     violations.push(viol("barrier", format!("step {}: macro returned while branch {} was blocked", s, b)));
                 }
             }
